@@ -73,5 +73,9 @@ theorem construct_eq (c : Cache.Ctor) (now : Int) : CacheOf.construct (K := K) (
   | newDefault d i cb =>
     simp only [CacheOf.construct, Cache.construct, CacheOf.newXsyncMapOf, Cache.newXsyncMap, configDefaultOf_eq]
     rfl
+  | newOptsOver b d i cb m =>
+    cases i <;> cases cb <;> cases m <;>
+      simp only [CacheOf.construct, Cache.construct, CacheOf.newXsyncMapOf, Cache.newXsyncMap, configDefaultOf_eq,
+        Gen.DefaultConfigOf_, Gen.DefaultConfig_] <;> rfl
 
 end Proofs.Twin
